@@ -79,6 +79,19 @@ def lattice_defn(points):
                        crit_list=[cmp("APID", op, 5, g("Comparison.useCalibratedValue", "true") == "true")],
                        abstract=g("SequenceContainer.abstract", "false") == "true")
     xdoc.add_container(d, "SUB", [("p", "TXT2")], base="MAIN", crit_list=[cmp("EN", "==", 1, False), cmp("N", "<", 9)])
+    # a child selected by a boolean expression whose conditions compare two parameters with independent selectors
+    lc = g("Condition.left.useCalibratedValue", "true") == "true"
+    rc = g("Condition.right.useCalibratedValue", "true") == "true"
+    cop = g("Condition.operator", "==")
+    pp = {"k": "cond", "l": "I16", "lcal": lc, "op": cop, "rk": "param", "r": "TM", "rcal": rc, "lit": crit.lit_num(False, 0)}
+    pl = {"k": "cond", "l": "N", "lcal": True, "op": "<", "rk": "lit", "r": "", "rcal": False, "lit": crit.lit_num(False, 200)}
+    pq = {"k": "cond", "l": "EN", "lcal": False, "op": "!=", "rk": "lit", "r": "", "rcal": False, "lit": crit.lit_num(False, 1)}
+    shape = g("BooleanExpression.shape", "condition")
+    bx = {"condition": pp, "and": {"k": "and", "conds": [pp, pl], "groups": []}, "or": {"k": "or", "conds": [pp, pq], "groups": []},
+          "and-of-or": {"k": "and", "conds": [pl], "groups": [{"k": "or", "conds": [pp, pq], "groups": []}]},
+          "or-of-and": {"k": "or", "conds": [pq], "groups": [{"k": "and", "conds": [pp, pl], "groups": []}]}}[shape]
+    xdoc.add_param(d, "BXV", uint(8))
+    xdoc.add_container(d, "BX", [("p", "BXV")], base="MAIN", crit_list=[bx])
     return d
 
 
